@@ -348,8 +348,16 @@ pub fn execute_into<'tree>(
             json!({"status": "panic", "msg": msg, "polls": polls, "truncated": truncated})
         }
         Ok(Ok(())) => {
-            json!({"status": "ok", "graph": project_graph(graph, src), "polls": polls, "truncated": truncated,
-                   "polls_after_fire": flag.polls_after_fire.get()})
+            // reading the result through the public API (every node, edge and attribute value, syntax nodes resolved through
+            // the graph) belongs to the observation: a panic here is an outcome of the library, not of the harness
+            match std::panic::catch_unwind(std::panic::AssertUnwindSafe(|| project_graph(graph, src))) {
+                Ok(g) => json!({"status": "ok", "graph": g, "polls": polls, "truncated": truncated,
+                                "polls_after_fire": flag.polls_after_fire.get()}),
+                Err(p) => {
+                    let msg = p.downcast_ref::<&str>().map(|s| s.to_string()).or_else(|| p.downcast_ref::<String>().cloned()).unwrap_or_else(|| "?".to_string());
+                    json!({"status": "panic", "msg": format!("while reading the returned graph: {}", msg), "polls": polls, "truncated": truncated})
+                }
+            }
         }
         Ok(Err(e)) => {
             let (chain, kind) = error_chain(&e);
